@@ -27,8 +27,9 @@ Lemma update_policy_eq : forall p s,
   else (false, s).
 Proof.
   intros. unfold update_policy, cfg_update_policy_steps. cbn [fold_left].
-  unfold up_step; cbn [String.eqb Ascii.eqb Bool.eqb up_err up_s up_p].
-  destruct (String.eqb (squash (s_policy s)) (squash p)) eqn:E; cbn [up_err up_s up_p]; reflexivity.
+  assert (H1 : up_step (mkUp p s false) "squash_check" =
+               if String.eqb (squash (s_policy s)) (squash p) then mkUp p s false else mkUp p s true) by reflexivity.
+  rewrite H1. destruct (String.eqb (squash (s_policy s)) (squash p)); reflexivity.
 Qed.
 
 Lemma merge_tuning_eq : forall g cur,
@@ -49,14 +50,18 @@ Lemma update_export_eq : forall ncpu o s,
     let p := rlc_filled (set_squash (snd o) (squash (s_policy s))) in
     (true, mkServer (s_tuning s1) p (policy_limiter p (s_comp s1))).
 Proof.
-  intros. unfold update_export, cfg_update_export_steps, squash_rejected. cbn [fold_left].
-  unfold ue_step; cbn [String.eqb Ascii.eqb Bool.eqb ue_err ue_s].
-  destruct (negb (String.eqb (squash (snd o)) "") && negb (String.eqb (squash (snd o)) (squash (s_policy s))))%bool eqn:E;
-    cbn [ue_err ue_s negb].
-  - reflexivity.
-  - rewrite update_policy_eq.
-    rewrite update_tuning_eq. cbn [s_policy s_tuning s_comp squash set_squash].
-    rewrite String.eqb_refl. cbn [fst snd negb]. reflexivity.
+  intros. unfold update_export, cfg_update_export_steps. cbn [fold_left].
+  assert (H1 : ue_step ncpu o (squash (s_policy s)) (mkUe s false) "squash_check" =
+               if squash_rejected o s then mkUe s true else mkUe s false) by reflexivity.
+  rewrite H1. destruct (squash_rejected o s); [reflexivity|].
+  assert (H2 : ue_step ncpu o (squash (s_policy s)) (mkUe s false) "tuning" =
+               mkUe (update_tuning ncpu (merge_tuning (fst o)) s) false) by reflexivity.
+  rewrite H2.
+  assert (H3 : forall s1, ue_step ncpu o (squash (s_policy s)) (mkUe s1 false) "policy" =
+               let r := update_policy (set_squash (snd o) (squash (s_policy s))) s1 in mkUe (snd r) (negb (fst r))) by reflexivity.
+  rewrite H3. cbv zeta. rewrite update_policy_eq.
+  rewrite update_tuning_eq. cbn [s_policy s_tuning s_comp squash set_squash].
+  rewrite String.eqb_refl. reflexivity.
 Qed.
 
 (* ---------- the default tables ---------- *)
